@@ -248,6 +248,11 @@ func (rw *rewriter) run() {
 			return true
 		}
 		if tv.Type.String() == "*github.com/dgraph-io/badger.DB" {
+			// R8b: the closure of a read-write transaction is wrapped so that a scenario can ask for a second
+			// scheduling point between the closure's return and the commit (vsched.SplitCommit)
+			if sel.Sel.Name == "Update" && len(call.Args) == 1 && rw.pure(sel.X) {
+				call.Args[0] = vcall("TxnFn", sel.X, call.Args[0])
+			}
 			sel.X = vcall("DBPoint", sel.X)
 			rw.needVS = true
 			rw.changed = true
